@@ -78,6 +78,9 @@ func (a *apu) sweepClock() {
 	if !a.sw.exact {
 		if a.sweepLive {
 			a.staleLo, a.staleHi = true, true
+			if a.nr10&8 != 0 {
+				a.negEver = true // a calculation in negate mode may have been made meanwhile
+			}
 		}
 		return
 	}
@@ -211,6 +214,9 @@ func (a *apu) write(addr uint16, v uint8) {
 					a.sw.exact = false
 					if shift > 0 && !neg {
 						a.trigUnknown = c.on
+					}
+					if shift > 0 && neg {
+						a.negEver = true // the trigger's own calculation, made in negate mode
 					}
 				} else {
 					a.sw.exact, a.sw.enabled, a.sw.shadow, a.sw.timer = true, a.sweepLive, a.freq1, per
